@@ -89,14 +89,16 @@ Definition si_name (i : sitem) : bytes :=
   | Some a => a
   | None => match i with SPath t _ => t | SLit _ c _ => c end
   end.
-(* rsql/ast.go: the spec handed to the stream (an empty literal without alias keeps its quotes) *)
+(* rsql/ast.go: the spec handed to the stream. A literal without alias is handed over as  'content':content
+   (its quoted text, then its content as the output name; before the repair of finding F71 the bare content was
+   handed over and cut at its first ':'); an empty literal without alias keeps its quotes *)
 Definition si_spec (i : sitem) : bytes :=
   match si_alias i with
   | Some a => si_text i ++ 58 :: a
   | None => match i with
             | SPath t _ => t
             | SLit _ [] _ => si_text i
-            | SLit _ c _ => c
+            | SLit _ c _ => si_text i ++ 58 :: c
             end
   end.
 
